@@ -54,6 +54,10 @@ def make_jobs(prop, tier, seed):
     if tier == "thorough":
         for j in range(16):
             jobs.append({"kind": "dfs", "prop": prop, "seed": seed * 7919 + j, "budget": 1500})
+        for j in range(32):
+            jobs.append({"kind": "pbound", "prop": prop, "seed": seed * 104729 + j, "k": 2, "budget": 2500})
+    else:
+        jobs.append({"kind": "pbound", "prop": prop, "seed": seed * 104729, "k": 1, "budget": 300})
     return jobs
 
 
@@ -92,9 +96,13 @@ def _run_batch(prop, items, use_driver=True):
            "distinct": [], "corr_fail": [], "mon_fail": [], "samples": [], "extra": {}}
     text = []
     meta = []
-    for idx, (sc, ck, cs, choices) in enumerate(items):
-        chooser = ds.replay_chooser(choices) if choices is not None else _mk_chooser(ck, cs, 40 * len(sc["threads"]))
-        r = m1.run_scenario(sc, chooser=chooser, seed=cs)
+    for idx, item in enumerate(items):
+        sc, ck, cs, choices = item[:4]
+        if len(item) > 4:
+            r = item[4]
+        else:
+            chooser = ds.replay_chooser(choices) if choices is not None else _mk_chooser(ck, cs, 40 * len(sc["threads"]))
+            r = m1.run_scenario(sc, chooser=chooser, seed=cs)
         res["evaluations"] += 1
         res["transitions"] += r["steps"]
         res["context_switches"] += r["switches"]
@@ -139,10 +147,55 @@ def _run_batch(prop, items, use_driver=True):
     return res
 
 
+class _M1(object):
+    """adapter for plug.pbound_job"""
+    name = "m1"
+    mode = "LS"
+
+    def run(self, sc, chooser, seed):
+        from . import m1_signal as m1
+        return m1.run_scenario(sc, chooser=chooser, seed=seed)
+
+
+def _pbound(prop, job):
+    """all schedules of a small scenario with at most k deviations from the non-pre-emptive schedule"""
+    from . import m1_signal as m1
+    rng = random.Random(job["seed"])
+    sc = m1.gen_scenario(rng, max_threads=3, max_ops=2, profile=([1, 2, 1, 4, 2, 1] if prop == "C02" else None))
+    sc["never"] = False
+    k, budget = job.get("k", 2), job.get("budget", 2500)
+    items, stack, exhausted, per_level = [], [({}, 0)], True, {}
+    while stack:
+        if len(items) >= budget:
+            exhausted = False
+            break
+        devs, start = stack.pop()
+        r = m1.run_scenario(sc, chooser=ds.deviation_chooser(devs))
+        items.append((sc, None, 0, list(r["choices"]), r))
+        per_level[len(devs)] = per_level.get(len(devs), 0) + 1
+        if len(devs) < k:
+            counts, ch = r["cand_counts"], r["choices"]
+            for i in range(min(len(ch), len(counts)) - 1, start - 1, -1):
+                for alt in range(counts[i]):
+                    if alt != ch[i] % max(counts[i], 1):
+                        d2 = dict(devs)
+                        d2[i] = alt
+                        stack.append((d2, i + 1))
+    res = _run_batch(prop, items)
+    res["extra"]["pbound_scenarios"] = 1
+    res["extra"]["pbound_runs"] = len(items)
+    res["extra"]["pbound_exhausted_k%d" % k] = 1 if exhausted else 0
+    for lv, n in per_level.items():
+        res["extra"]["pbound_runs_with_%d_deviations" % lv] = n
+    return res
+
+
 def run_job(job):
     from . import m1_signal as m1
     prop = job["prop"]
     kind = job["kind"]
+    if kind == "pbound":
+        return _pbound(prop, job)
     if kind == "replay":
         rp = job["replay"].get("replay") or job["replay"].get("first_divergence") or job["replay"]
         res = _run_batch(prop, [(rp["scenario"], None, 0, rp["choices"])])
